@@ -747,6 +747,15 @@ def rule_c17_compute_and_state(prog: Program, col: Collector) -> None:
               "compute_bounds() = self._bounds_computer(self), on every call", construct="compute-bounds-conditional",
               necessity="a compute that is skipped when 'nothing changed' (same known set, dirty flag, ...) leaves the bounds of an earlier knowledge state in place: "
                         "the same coalitions can be known with other values after a bulk reset, and un-reveal + reveal restores the flag pattern but not the bounds")
+    # ... and nothing else: the stored intervals are the computer's, not post-processed
+    post = [e for e in list(ft.of_kind("store")) + list(ft.of_kind("aug")) if e.data.get("index") is not None or e.data.get("attr") is not None]
+    post += [e for e in ft.calls() if e.recv == SELF and e.name in gm.methods and e.name.startswith(("set_", "unset_", "reveal", "unreveal", "_init"))]
+    post += [e for e in ft.calls() if is_global(e.func, "numpy.place", "numpy.put", "numpy.copyto", "numpy.putmask")]
+    col.check(not post, ref.where(post[0].node if post else None), ref.short,
+              "compute_bounds() stores nothing itself: the intervals in the table are exactly what the registered computer wrote",
+              construct="compute-bounds-postprocess",
+              necessity="closing `nearly degenerate` intervals (np.isclose has a relative tolerance of 1e-5), clipping or rounding after the computer moves a bound past a value "
+                        "the true game may take: the interval no longer contains it, and a later reveal makes the interval grow again")
     allowed = {"number_of_players", "_bounds_computer", "_values"}
     extra = []
     for name, m in gm.methods.items():
